@@ -536,15 +536,15 @@ Definition stdlib_base (t : ity) : bool := in_stdlib (resolve_supertype t) || ty
 Fixpoint isstdlibtype (t : ity) {struct t} : bool :=
   let fix all_std (l : list ity) {struct l} : bool :=
     match l with [] => true | x :: r => isstdlibtype x && all_std r end in
-  let fix all_butlast (l : list ity) {struct l} : bool :=
+  let fix all_std_nonnull (l : list ity) {struct l} : bool :=    (* members other than None / NoneType *)
     match l with
     | [] => true
-    | x :: r => match r with [] => true | _ => isstdlibtype x && all_butlast r end
+    | x :: r => (if is_nullarg x then true else isstdlibtype x) && all_std_nonnull r
     end in
   if isoptionaltype t then
     match t with
-    | IUnion _ l => all_butlast l
-    | ILiteral vs => forallb (fun v => memN (lit_cls v) (t_stdlib T)) (removelast vs)
+    | IUnion _ l => all_std_nonnull l
+    | ILiteral vs => forallb (fun v => match v with LNone => true | _ => memN (lit_cls v) (t_stdlib T) end) vs
     | _ => true                      (* get_args(t) is empty *)
     end
   else if isuniontype t then
